@@ -31,7 +31,7 @@ STATE_MEASURE = "distinct (module, leading-digit/length class of the SYM counter
 COMPONENTS = {
     "real": ["symplyphysics (all catalogue modules, core)", "SymPy", "CPython import system", "calculate_* functions"],
     "stubbed": ["bulk creation replaced by forward counter jumps in part of the histories (equivalence sampled in the self-test)"],
-    "not_run": ["the repo's pytest files inside perturbed children (thorough tier only)"],
+    "quick_tier_omits": ["the repo's own test files run inside perturbed children (oracle V5, thorough tier only)"],
 }
 ASSUMPTIONS = [
     "self-differential oracle: the reference is the same tree under the canonical history in the same zygote configuration; the only absolute demand is that import succeeds",
@@ -228,12 +228,12 @@ def generate(seed: int, run: int, tier: str) -> dict:
     order = list(targets)
     rng.shuffle(order)
     for t in order:
-        ops.append({"op": "observe", "m": t, "use_prepared": True} if style == "args_early" else {"op": "observe", "m": t})
+        ops.append({"op": "observe", "m": t, "use_prepared": True} if style == "args_early" else {"op": "observe", "m": t, "tests": tier == "thorough" and rng.random() < 0.3})
     return _job(seed, run, env, ops)
 
 
-def canonical_job(modname: str, env: dict) -> dict:
-    return _job(0, f"canon:{modname}", env, [{"op": "observe", "m": modname}])
+def canonical_job(modname: str, env: dict, tests: bool = False) -> dict:
+    return _job(0, f"canon:{modname}", env, [{"op": "observe", "m": modname, "tests": tests}])
 
 
 def systematic_jobs(tier: str, seed: int, ctx) -> list[dict]:
@@ -242,8 +242,11 @@ def systematic_jobs(tier: str, seed: int, ctx) -> list[dict]:
         deps = closure_deps(m)
         pre = [{"op": "import", "m": d} for d in deps]
         # three digit-boundary placements inside the module's *own* allocation
-        for v, (to_sym, to_fun, to_qty) in enumerate([(999, 9, 99), (1004, 99, 999), (99997, 999, 9998)]):
-            ops = list(pre) + [{"op": "jump", "prefix": "SYM", "to": to_sym}, {"op": "jump", "prefix": "FUN", "to": to_fun}, {"op": "jump", "prefix": "QTY", "to": to_qty}, {"op": "observe", "m": m}]
+        places = [(999, 9, 99), (1004, 99, 999), (99997, 999, 9998)]
+        if tier == "thorough":
+            places += [(996, 8, 9), (1999, 10, 100), (9996, 97, 9999), (299, 19, 29), (99, 1, 999996), (19999, 9, 1999)]
+        for v, (to_sym, to_fun, to_qty) in enumerate(places):
+            ops = list(pre) + [{"op": "jump", "prefix": "SYM", "to": to_sym}, {"op": "jump", "prefix": "FUN", "to": to_fun}, {"op": "jump", "prefix": "QTY", "to": to_qty}, {"op": "observe", "m": m, "tests": tier == "thorough" and v < 3}]
             jobs.append(_job(seed, f"sys:{i}:{v}", ENV0, ops))
     return jobs
 
@@ -337,6 +340,8 @@ def child_run(job: dict) -> dict:
             dep_first = m in sys.modules
             o = observe.observe(m, with_calls=op.get("calls", True), prepared=prepared.get(m) if op.get("use_prepared") else None)
             _note_first_imports(before_mods, first_import_counter, counters, faults, perturbed_before)
+            if op.get("tests") and o.get("import") == "ok":
+                o["tests"] = observe.run_repo_tests(m, core.REPO)
             o["dep_first"] = dep_first
             o["counters_before"] = {p: counters.get(p, 0) for p in PREFIXES}
             obs[m] = o
@@ -474,6 +479,15 @@ def compare(modname: str, canon: dict, got: dict) -> tuple[list[dict], list[str]
                 v("call", f"{modname}.{f}", f"returned {a[1]} canonically but {b} under this history")
             elif not _outcome_close(a[1], b[1]):
                 v("call", f"{modname}.{f}", f"returned {a[1]} canonically but {b[1]} under this history")
+    ct, gt = canon.get("tests"), got.get("tests")
+    if ct and gt is not None:
+        for tid in sorted(ct):
+            if ct[tid] != "passed":
+                continue
+            if gt.get(tid) in ("timeout", None) or "timeout" in gt.values():
+                inc.append("test-timeout")
+            elif gt.get(tid) != "passed":
+                v("test", f"{modname}::{tid}", f"the repo's own test {tid} passes under the canonical history but is {gt.get(tid)} under this one")
     return vio, inc, sus
 
 
@@ -481,7 +495,8 @@ def prepare(pool, tier, seed, stats):
     ctx = {"canon": {}, "suspects": set(), "inc": 0}
     mods = modules()
     core.log(f"canonical observations: {len(mods)} modules in env {ENV0}")
-    jobs = [canonical_job(m, ENV0) for m in mods]
+    ctx["tests"] = tier == "thorough"
+    jobs = [canonical_job(m, ENV0, tests=ctx["tests"]) for m in mods]
     ress = pool.run(jobs)
     table = {}
     n_ok = 0
@@ -512,7 +527,7 @@ def before_judge(pool, jobs, ress, ctx) -> None:
         table = ctx["canon"].setdefault(ek, {})
         for m in (res["result"].get("obs") or {}):
             if m not in table and (ek, m) not in [(core.env_key(j["env"]), j["ops"][0]["m"]) for j in need]:
-                need.append(canonical_job(m, job["env"]))
+                need.append(canonical_job(m, job["env"], tests=bool(ctx.get("tests"))))
     if need:
         out = pool.run(need)
         for j, r in zip(need, out):
